@@ -605,11 +605,15 @@ def struct_cases(ctx, doc, oracle, only=None):
             items_v = schema.active(cname, v)
             full_counts = [1 if it['mult'] != 'Many' else 2 for it in items_v]
             full_obj, _ = impl_read(cls, sg.encode(tag, gen.struct(cname, v, 0, full_counts)), v)
-            for counts in (vectors if quick else vectors * 3):      # thorough: three value draws per occurrence vector
-                if full_obj is not None:
-                    oracle.presence_pattern(cname, cls, v, full_obj, items_v, counts,
-                                            {it['field']: n for it, n in zip(items_v, counts)})
-                val = gen.struct(cname, v, 0, counts)
+            todo = list(vectors if quick else vectors * 3) + [None]   # None: the everything-present-at-every-level value (last: not a mutation source)
+            for counts in todo:                                      # thorough: three value draws per occurrence vector
+                if counts is None:
+                    val = gen.full(cname, v)
+                else:
+                    if full_obj is not None:
+                        oracle.presence_pattern(cname, cls, v, full_obj, items_v, counts,
+                                                {it['field']: n for it, n in zip(items_v, counts)})
+                    val = gen.struct(cname, v, 0, counts)
                 bs = sg.encode(tag, val)
                 valids.append(val)
                 obj, rest = impl_read(cls, bs, v)
@@ -618,6 +622,8 @@ def struct_cases(ctx, doc, oracle, only=None):
                 if sc is None:
                     ctx.count('struct.k-skipped.outside-modelled-domain')
                     sc = SKIP
+                if counts is None and not rep and quick:
+                    sc = SKIP       # the (large) everything-present value of a non-representative version: direct oracle only
                 cases.append(sc)
                 meta.append({'class': cname, 'v': v, 'kind': 'valid', 'value': sg.describe(val), 'hex': bs.hex(),
                              'impl': 'accept' if obj is not None else 'reject:' + rest})
@@ -1073,6 +1079,37 @@ def constructed_objects(ctx, oracle):
         object_type=enums.ObjectType.SYMMETRIC_KEY, unique_identifiers=['1', ''], derivation_method=enums.DerivationMethod.HASH,
         derivation_parameters=attributes.DerivationParameters(derivation_data=b'', iteration_count=0), template_attribute=ta(1)), ALL, 'DeriveKeyRequestPayload'))
 
+    # --- Query response: a container outside T (it embeds ServerInformation) that embeds version-dependent structures
+    def server_information():
+        si = misc.ServerInformation()
+        si.data = utils.BytearrayStream(sg.enc_prim(0x42009d, 'PText', 'vendor') + sg.enc_prim(0x420055, 'PText', 'x'))
+        return si
+
+    def query_response(v=20):
+        """every member the version defines (a member of a later version is not part of a value of version v)"""
+        def since(ver, x):
+            return x if v >= ver else None
+        return payloads.QueryResponsePayload(
+            operations=[enums.Operation.CREATE, enums.Operation.QUERY], object_types=[enums.ObjectType.SYMMETRIC_KEY],
+            vendor_identification='IBM test server, not-TKLM 2.0.1.1 KMIP 2.0.0.1', server_information=server_information(),
+            application_namespaces=['ssl', ''],
+            extension_information=since(11, [objects.ExtensionInformation(extension_name=objects.ExtensionName('ACME LOCATION'), extension_tag=objects.ExtensionTag(0x54AA01),
+                                                                extension_type=objects.ExtensionType(7))]),
+            attestation_types=since(12, [enums.AttestationType.TPM_QUOTE]),
+            rng_parameters=since(13, [objects.RNGParameters(rng_algorithm=enums.RNGAlgorithm.FIPS186_2, cryptographic_algorithm=enums.CryptographicAlgorithm.AES,
+                                                  cryptographic_length=256, hashing_algorithm=enums.HashingAlgorithm.SHA_256, prediction_resistance=False)]),
+            profile_information=since(13, [objects.ProfileInformation(profile_name=enums.ProfileName.BASELINE_SERVER_BASIC_KMIPv12, server_uri='https://example.com', server_port=0)]),
+            validation_information=since(13, [objects.ValidationInformation(validation_authority_type=enums.ValidationAuthorityType.COMMON_CRITERIA, validation_version_major=1,
+                                                                  validation_version_minor=0, validation_type=enums.ValidationType.HYBRID, validation_level=0)]),
+            capability_information=since(13, [objects.CapabilityInformation(streaming_capability=False, asynchronous_capability=True, attestation_capability=True,
+                                                                  batch_undo_capability=since(14, True), batch_continue_capability=since(14, False),
+                                                                  unwrap_mode=enums.UnwrapMode.PROCESSED, destroy_action=enums.DestroyAction.SHREDDED,
+                                                                  shredding_algorithm=enums.ShreddingAlgorithm.CRYPTOGRAPHIC, rng_mode=enums.RNGMode.SHARED_INSTANTIATION)]),
+            client_registration_methods=since(13, [enums.ClientRegistrationMethod.CLIENT_GENERATED]))
+    for v in ALL:
+        out.append(('QueryResponsePayload', (lambda v=v: query_response(v)), [v], 'QueryResponsePayload(every optional member KMIP %d defines: server information with data, extension information, '
+                    'RNG parameters, profile / validation information, capability information incl. the KMIP 1.4 fields, ...)' % v))
+
     # --- whole messages
     def header(v, **kw):
         return messages.RequestHeader(protocol_version=contents.ProtocolVersion(v // 10, v % 10), batch_count=contents.BatchCount(kw.pop('n', 1)), **kw)
@@ -1091,6 +1128,11 @@ def constructed_objects(ctx, oracle):
             maximum_response_size=contents.MaximumResponseSize(0), batch_order_option=contents.BatchOrderOption(True),
             authentication=contents.Authentication(credentials=[objects.Credential(enums.CredentialType.USERNAME_AND_PASSWORD, objects.UsernamePasswordCredential('u', 'p'))]))),
             [v], 'RequestMessage(Create + Activate, authentication, max response size 0) under version %d' % v))
+        out.append(('ResponseMessage', (lambda v=v: messages.ResponseMessage(
+            response_header=messages.ResponseHeader(protocol_version=contents.ProtocolVersion(v // 10, v % 10), time_stamp=contents.TimeStamp(1), batch_count=contents.BatchCount(1)),
+            batch_items=[messages.ResponseBatchItem(operation=contents.Operation(enums.Operation.QUERY), result_status=contents.ResultStatus(enums.ResultStatus.SUCCESS),
+                                                    response_payload=query_response(v))])),
+            [v], 'ResponseMessage(Query response with every optional member) under version %d' % v))
         out.append(('ResponseMessage', (lambda v=v: messages.ResponseMessage(
             response_header=messages.ResponseHeader(protocol_version=contents.ProtocolVersion(v // 10, v % 10), time_stamp=contents.TimeStamp(0), batch_count=contents.BatchCount(3)),
             batch_items=[messages.ResponseBatchItem(operation=contents.Operation(enums.Operation.DESTROY), result_status=contents.ResultStatus(enums.ResultStatus.SUCCESS),
@@ -1191,7 +1233,8 @@ def run(ctx):
             # only steers the generator here, nothing is compared with it.
             try:
                 stale = load_schema()
-                lost = {c['name'] for c in stale['classes']} - {c['name'] for c in doc['classes']}
+                stale = dict(stale, classes=stale['classes'] + stale.get('oracle_only_classes', []))
+                lost = {c['name'] for c in stale['classes']} - {c['name'] for c in doc['classes'] + doc.get('oracle_only_classes', [])}
                 if lost:
                     ctx.log('oracle-only generation from the last good schema for: %s' % ', '.join(sorted(lost)))
                     with watchdog(oracle.budget, hard, 'oracle-only generation from the last good schema'):
@@ -1247,6 +1290,15 @@ def run(ctx):
     for i in (0, len(cases) // 3, 2 * len(cases) // 3):
         if cases:
             ctx.sample({'struct_case': meta[i], 'coq': cases[i][:300]})
+
+    # --- containers outside T that embed translated (version-dependent) classes: their own schema, minus the items of the
+    #     classes outside T, steers the generator; only the direct oracle looks at the results (no model for them)
+    oo = doc.get('oracle_only_classes', [])
+    if oo:
+        with watchdog(oracle.budget, hard, 'oracle-only containers'):
+            _c, _m, oo_stats = struct_cases(ctx, dict(doc, classes=doc['classes'] + oo), oracle, only={c['name'] for c in oo})
+            ctx.cov['oracle_only_containers'] = oo_stats
+            ctx.log('oracle-only containers: %s' % ', '.join('%s (%d encodings)' % (n, st['valid'] + st['mutated']) for n, st in sorted(oo_stats.items())))
 
     # --- all classes, including the hand-modelled ones: harvested unit-test encodings through the real classes only
     with watchdog(oracle.budget, hard, 'the harvested encodings'):
